@@ -598,6 +598,89 @@ func CheckRelations(h *Hub, m *Model, pool, preds []string, scopes [][]string, l
 			}
 		}
 	}
+	// several start entities in one query (as POST /query and the Query function of transforms allow), unpaged and
+	// paged: every start entity gets its own relations, nothing is lost or repeated at the borders between them
+	if len(pool) >= 2 {
+		starts := pool
+		if len(starts) > 3 {
+			starts = starts[:3]
+		}
+		var curies []string
+		for _, st := range starts {
+			curies = append(curies, h.curie(st))
+		}
+		for _, inverse := range []bool{false, true} {
+			dir := "out"
+			if inverse {
+				dir = "in"
+			}
+			exp := map[string]map[relPair]bool{}
+			total := 0
+			for _, st := range starts {
+				fs := markerToFull(st)
+				if inverse {
+					exp[fs] = m.In(fs, "*", nil)
+				} else {
+					exp[fs] = m.Out(fs, "*", nil)
+				}
+				total += len(exp[fs])
+			}
+			for _, lim := range append([]int{0}, limits...) {
+				if lim < 0 {
+					continue
+				}
+				queries++
+				got := map[string]map[relPair]int{}
+				res, err := h.Store.GetManyRelatedEntitiesBatch(curies, "*", inverse, nil, lim, true)
+				for guard := 0; err == nil; guard++ {
+					for _, r := range res.Relations {
+						fs := h.expand(r.StartURI)
+						if got[fs] == nil {
+							got[fs] = map[relPair]int{}
+						}
+						id := ""
+						if r.RelatedEntity != nil {
+							id = h.expand(r.RelatedEntity.ID)
+						}
+						got[fs][relPair{h.expand(r.PredicateURI), id}]++
+					}
+					if len(res.Cont) == 0 || lim == 0 {
+						break
+					}
+					if guard > 4*total+20 {
+						return viol("C03", "relations", dir+":multi-start:paged:no-termination", "paged query over start entities %v %s limit=%d does not terminate", shortAll(starts), dir, lim), queries
+					}
+					res, err = h.Store.GetManyRelatedEntitiesAtTime(res.Cont, lim, true)
+				}
+				if err != nil {
+					return viol("C03", "relations", dir+":multi-start:error", "query over start entities %v: %v", starts, err), queries
+				}
+				for _, st := range starts {
+					fs := markerToFull(st)
+					g := got[fs]
+					if g == nil {
+						g = map[relPair]int{}
+					}
+					if vv := cmpRel(exp[fs], g); vv != "" {
+						sig := fmt.Sprintf("%s:multi-start:%s", dir, vv)
+						if lim > 0 {
+							sig = fmt.Sprintf("%s:multi-start:paged:%s", dir, vv)
+						}
+						if inverse && multiRelationHistory(m, fs, "*", nil, exp[fs], g) {
+							sig = fmt.Sprintf("in:%s:multi-relation-history", vv)
+							if lim > 0 {
+								sig = fmt.Sprintf("in:paged:%s:multi-relation-history", vv)
+							}
+						}
+						if report(viol("C03", "relations", sig, "query over start entities %v (any predicate, %s, limit %d) returned for %s %s, graph of latest versions implies %s", shortAll(starts), dir, lim, shortURI(fs), fmtPairsN(g), fmtPairs(exp[fs]))) {
+							return v, queries
+						}
+						break
+					}
+				}
+			}
+		}
+	}
 	return v, queries
 }
 
